@@ -256,6 +256,19 @@ func c03Recovery(c *Ctx) {
 		}
 	}
 	r = "C03.6/index-recovery"
+	// the synced/async marker shares the first byte of the commit entry with the data: it is decoded before the byte
+	// is cleaned for the checksum, otherwise every entry looks synced and the recovery walk stops too early
+	if f := c.mustFn(r, "embedded/tbtree.(*cLogEntry).deserialize"); f != nil {
+		clear := func(in ssa.Instruction) bool {
+			st, ok := in.(*ssa.Store)
+			if !ok {
+				return false
+			}
+			ia, ok := st.Addr.(*ssa.IndexAddr)
+			return ok && desc(ia.Index) == "const:0" && desc(ia.X) == "param:b"
+		}
+		c.neverAfter(r, f, "decoding of the synced marker", storeTo("cLogEntry.synced"), "clearing of the marker bit", clear)
+	}
 	if f := c.mustFn(r, "embedded/tbtree.OpenWith"); f != nil {
 		// the accepted commit entry: store of a non-constant committedLogSize guarded by a condition that
 		// depends on isValid and on both checksum comparisons
